@@ -350,6 +350,10 @@ class Abs(Operator):
 
     def __init__(self, a):
         """Initialise."""
+        if a is self:
+            # Abs(Abs(x)) returned the existing Abs(x) from __new__,
+            # which Python then passes to __init__ with itself as argument
+            return
         Operator.__init__(self, (a,))
 
     def evaluate(self, x, mapping, component, index_values):
